@@ -223,4 +223,239 @@ theorem bm1_arith (P Pl V va n1 cy vr d1 b2 : Nat) (hP : P = Pl * B) (hb : B = b
     rw [hle]
     nlinarith [Nat.zero_le (P * e)]
 
+theorem val_dp_bounds (dlo : List Nat) (d0 d1 : Nat) (hdlo : Limbs dlo) (hd0 : d0 < B) :
+    val (dlo ++ [d0, d1]) < (d1 + 1) * (B ^ dlo.length * B) := by
+  rw [val_top2]
+  have h1 := val_lt dlo hdlo
+  have : B ^ dlo.length * (d0 + 1) ≤ B ^ dlo.length * B := Nat.mul_le_mul_left _ hd0
+  nlinarith
+
+/-- one iteration of the truncating loop of mpn_sb_div_q with flag = ~0 (sb_div_q.c:115-163): an exact division step
+    of the window by the current divisor whose remainder is reduced unless q = B-1, or the `flag = 0` event -/
+theorem dqStepB_true (dlo a : List Nat) (d0 d1 dinv n1 : Nat) (ha : a.length = dlo.length + 2)
+    (hdlo : Limbs dlo) (hal : Limbs a) (hd0 : d0 < B) (hd1 : d1 < B) (hn1 : n1 < B)
+    (hnorm : B / 2 ≤ d1) (hdinv : dinv = invert_pi1 d1 d0) :
+    ∃ q w n1' fl, dqStepB (dlo ++ [d0, d1]) d1 d0 dinv a n1 true = (q, w, n1', fl) ∧
+      q < B ∧ Limbs w ∧ w.length = dlo.length + 1 ∧ n1' < B ∧
+      (fl = true → val a + B ^ (dlo.length + 2) * n1
+          = q * val (dlo ++ [d0, d1]) + (val w + B ^ (dlo.length + 1) * n1') ∧
+        (val w + B ^ (dlo.length + 1) * n1' < val (dlo ++ [d0, d1]) ∨ q = B - 1)) ∧
+      (fl = false → q = B - 1 ∧
+        (B - 1) * val (dlo ++ [d0, d1]) + B ^ (dlo.length + 2) ≤ val a + B ^ (dlo.length + 2) * n1) := by
+  have hB := B_pos
+  obtain ⟨b2, hb2⟩ := B_eq_succ2
+  have hbm1 : B - 1 = b2 + 1 := by omega
+  have hbm2 : B - 2 = b2 := by omega
+  have hd : Limbs (dlo ++ [d0, d1]) := Limbs_append.mpr ⟨hdlo, Limbs_pair hd0 hd1⟩
+  have hdl : (dlo ++ [d0, d1]).length = dlo.length + 2 := by simp
+  unfold dqStepB
+  simp only [len_top, andFlag, if_true]
+  by_cases hge : n1 ≥ d1
+  · rw [if_pos hge]
+    obtain ⟨hv, hc, hrl, hrn⟩ := submul1C_val (B - 1) (by omega) a (dlo ++ [d0, d1]) 0 hal hd (by rw [ha, hdl]) hB
+    change val (submul_1 _ _ _).1 + _ + 0 = _ + _ * (submul_1 _ _ _).2 at hv
+    change (submul_1 _ _ _).2 < B at hc
+    change Limbs (submul_1 _ _ _).1 at hrl
+    change (submul_1 _ _ _).1.length = _ at hrn
+    generalize submul_1 a (dlo ++ [d0, d1]) (B - 1) = rc at *
+    obtain ⟨r, cy⟩ := rc
+    simp only at hv hc hrl hrn ⊢
+    rw [hdl] at hv hrn
+    have hvr := val_lt r hrl
+    have hva := val_lt a hal
+    rw [hrn] at hvr
+    rw [ha] at hva
+    have hV2 := val_dp_bounds dlo d0 d1 hdlo hd0
+    have hP : B ^ (dlo.length + 2) = B ^ dlo.length * B * B := pow_k2 _
+    obtain ⟨k1, k2, k3⟩ := bm1_arith (B ^ (dlo.length + 2)) (B ^ dlo.length * B) (val (dlo ++ [d0, d1])) (val a) n1 cy
+      (val r) d1 b2 hP hb2 hV2 hva hvr hd1 (by simp only [B_eq] at *; omega) hge (by rw [← hbm1]; linarith)
+    have hsp := split_top2_val r dlo.length hrn
+    have hsp' : val (r.take (dlo.length + 1)) + B ^ (dlo.length + 1) * r.getD (dlo.length + 1) 0 = val r :=
+      val_take_top r (dlo.length + 1) hrn
+    by_cases hne : n1 ≠ cy
+    · rw [if_pos hne]
+      by_cases hlt : n1 < cy
+      · rw [if_pos hlt]
+        simp only []
+        obtain ⟨m1, m2, m3⟩ := k2 hlt
+        obtain ⟨av, ac, al, an⟩ := addNC_val r (dlo ++ [d0, d1]) 0 hrl hd (by rw [hrn, hdl]) (by omega)
+        change val (add_n _ _).1 + _ * (add_n _ _).2 = _ at av
+        change (add_n _ _).2 ≤ 1 at ac
+        change Limbs (add_n _ _).1 at al
+        change (add_n _ _).1.length = _ at an
+        generalize add_n r (dlo ++ [d0, d1]) = sc at *
+        obtain ⟨vs, c⟩ := sc
+        simp only at av ac al an ⊢
+        rw [hrn] at av an
+        have hvs := val_lt vs al
+        rw [an] at hvs
+        have hc1 : c = 1 := by
+          rcases Nat.eq_zero_or_pos c with h | h
+          · subst h; omega
+          · omega
+        subst hc1
+        have hsv : val (vs.take (dlo.length + 1)) + B ^ (dlo.length + 1) * vs.getD (dlo.length + 1) 0 = val vs :=
+          val_take_top vs (dlo.length + 1) an
+        refine ⟨B - 2, _, _, true, rfl, by omega, Limbs_take al _, by rw [List.length_take, an]; omega,
+          limb_getD al _, fun _ => ⟨?_, Or.inl ?_⟩, fun h => by cases h⟩
+        · rw [hsv, hbm2]; omega
+        · rw [hsv]; omega
+      · rw [if_neg hlt]
+        simp only []
+        refine ⟨B - 1, _, _, false, rfl, by omega, Limbs_take hrl _, by rw [List.length_take, hrn]; omega,
+          limb_getD hrl _, (fun h => by cases h), fun _ => ⟨rfl, ?_⟩⟩
+        rw [hbm1]; exact k3 (by omega)
+    · rw [if_neg hne]
+      have hq : n1 = cy := by omega
+      refine ⟨B - 1, _, _, true, rfl, by omega, Limbs_take hrl _, by rw [List.length_take, hrn]; omega,
+        limb_getD hrl _, fun _ => ⟨?_, Or.inr rfl⟩, fun h => by cases h⟩
+      rw [hsp', hbm1]; exact k1 hq
+  · rw [if_neg hge]
+    have hsplit := split_top2 a dlo.length ha
+    have halo : Limbs (a.take dlo.length) := Limbs_take hal _
+    have hm0 := limb_getD hal dlo.length
+    have hm1 := limb_getD hal (dlo.length + 1)
+    have hlen : (a.take dlo.length).length = dlo.length := by rw [List.length_take, ha]; omega
+    generalize a.take dlo.length = alo at *
+    generalize a.getD dlo.length 0 = m0 at *
+    generalize a.getD (dlo.length + 1) 0 = m1 at *
+    subst hsplit
+    have hN : n1 * B + m1 < d1 * B + d0 := by
+      have : (n1 + 1) * B ≤ d1 * B := Nat.mul_le_mul_right _ (by omega)
+      nlinarith
+    rw [dqRegular_eq_sb dlo alo d0 d1 m0 m1 n1 dinv hlen hdlo halo hd0 hd1 hm0 hm1 hn1 hnorm hdinv hN]
+    obtain ⟨q, w, n1', e, h1, h2, hq, hw, hwl, hn1'⟩ :=
+      sbRegular_spec dlo alo d0 d1 m0 m1 n1 dinv hlen hdlo halo hd0 hd1 hm0 hm1 hn1 hnorm hdinv hN
+    rw [e]
+    exact ⟨q, w, n1', true, rfl, hq, hw, hwl, hn1', fun _ => ⟨h1, Or.inl h2⟩, fun h => by cases h⟩
+
+/-- with flag = 0 every further quotient limb is B-1 and the flag stays 0 -/
+theorem dqStepB_false (dp a : List Nat) (d1 d0 dinv n1 : Nat) :
+    (dqStepB dp d1 d0 dinv a n1 false).1 = B - 1 ∧ (dqStepB dp d1 d0 dinv a n1 false).2.2.2 = false := by
+  unfold dqStepB
+  simp only [andFlag, Bool.false_eq_true, if_false, ge_iff_le, Nat.zero_le, if_true, Nat.not_lt_zero]
+  split <;> simp
+
+
+theorem norm_two (d1 : Nat) (h : B / 2 ≤ d1) : B ≤ 2 * d1 := by
+  simp only [B_eq] at *; omega
+
+theorem add_ssaaaa_val (r1 r0 d1 d0 : Nat) (hr1 : r1 < B) (hr0 : r0 < B) (hd1 : d1 < B) (hd0 : d0 < B)
+    (hc : B * B ≤ r0 + B * r1 + (d0 + B * d1)) :
+    (add_ssaaaa r1 r0 d1 d0).2 + B * (add_ssaaaa r1 r0 d1 d0).1 + B * B = r0 + B * r1 + (d0 + B * d1) ∧
+      (add_ssaaaa r1 r0 d1 d0).2 < B ∧ (add_ssaaaa r1 r0 d1 d0).1 < B := by
+  unfold add_ssaaaa
+  simp only [B_eq] at *
+  omega
+
+theorem list_len2 (l : List Nat) (h : l.length = 2) : ∃ x y, l = [x, y] := by
+  match l, h with
+  | [x, y], _ => exact ⟨x, y, rfl⟩
+
+theorem submul_two (a u : List Nat) (v : Nat) (ha : a.length = 2) (hu : u.length = 2) (hal : Limbs a) (hul : Limbs u)
+    (hv : v < B) :
+    ∃ r0 r1 cy, submul_1 a u v = ([r0, r1], cy) ∧ r0 < B ∧ r1 < B ∧ cy < B ∧
+      r0 + B * r1 + val u * v = val a + B * B * cy := by
+  obtain ⟨h1, hc, hrl, hrn⟩ := submul1C_val v hv a u 0 hal hul (by rw [ha, hu]) B_pos
+  change val (submul_1 _ _ _).1 + _ + 0 = _ + _ * (submul_1 _ _ _).2 at h1
+  change (submul_1 _ _ _).2 < B at hc
+  change Limbs (submul_1 _ _ _).1 at hrl
+  change (submul_1 _ _ _).1.length = _ at hrn
+  generalize submul_1 a u v = rc at *
+  obtain ⟨r, cy⟩ := rc
+  simp only at h1 hc hrl hrn ⊢
+  rw [hu] at hrn h1
+  obtain ⟨r0, r1, rfl⟩ := list_len2 r hrn
+  have hr0 : r0 < B := hrl r0 (by simp)
+  have hr1 : r1 < B := hrl r1 (by simp)
+  refine ⟨r0, r1, cy, rfl, hr0, hr1, hc, ?_⟩
+  simp only [val_cons, val_nil, Nat.mul_zero, Nat.add_zero] at h1
+  rw [show B ^ 2 = B * B from pow_two B] at h1
+  linarith
+
+theorem two_limb_lt (x y : Nat) (hx : x < B) (hy : y < B) : x + B * y < B * B ∧ x + B * y < (y + 1) * B := by
+  constructor <;> nlinarith
+
+/-- the last quotient limb of mpn_sb_div_q with flag = ~0 (sb_div_q.c:165-196) -/
+theorem dqLast_true (a0 a1 d0 d1 dinv n1 : Nat) (ha0 : a0 < B) (ha1 : a1 < B) (hd0 : d0 < B) (hd1 : d1 < B)
+    (hn1 : n1 < B) (hnorm : B / 2 ≤ d1) (hdinv : dinv = invert_pi1 d1 d0) :
+    ∃ q r0 r1 fl, dqLast d1 d0 dinv [a0, a1] n1 true = (q, [r0, r1], r1, fl) ∧
+      q < B ∧ r0 < B ∧ r1 < B ∧
+      (fl = true → a0 + B * a1 + B * B * n1 = q * (d0 + B * d1) + (r0 + B * r1) ∧
+        (r0 + B * r1 < d0 + B * d1 ∨ q = B - 1)) ∧
+      (fl = false → q = B - 1 ∧ (B - 1) * (d0 + B * d1) + B * B ≤ a0 + B * a1 + B * B * n1) := by
+  have hB := B_pos
+  obtain ⟨b2, hb2⟩ := B_eq_succ2
+  have hbm1 : B - 1 = b2 + 1 := by omega
+  have hbm2 : B - 2 = b2 := by omega
+  have hd : Limbs [d0, d1] := Limbs_pair hd0 hd1
+  have hal : Limbs [a0, a1] := Limbs_pair ha0 ha1
+  unfold dqLast
+  simp only [andFlag, if_true]
+  by_cases hge : n1 ≥ d1
+  · rw [if_pos hge]
+    obtain ⟨r0, r1, cy, erc, hr0, hr1, hc, hv⟩ := submul_two [a0, a1] [d0, d1] (B - 1) rfl rfl hal hd (by omega)
+    rw [erc]
+    simp only [val_cons, val_nil, Nat.mul_zero, Nat.add_zero] at hv
+    simp only []
+    have hsub : r0 + B * r1 + (d0 + B * d1) * (b2 + 1) = a0 + B * a1 + B * B * cy := by
+      rw [← hbm1]; exact hv
+    have hk := fun (P : Nat) (hP : P = B * B) => bm1_arith P B (d0 + B * d1) (a0 + B * a1) n1 cy (r0 + B * r1) d1 b2 hP hb2
+      (two_limb_lt d0 d1 hd0 hd1).2 (hP ▸ (two_limb_lt a0 a1 ha0 ha1).1) (hP ▸ (two_limb_lt r0 r1 hr0 hr1).1) hd1
+      (norm_two d1 hnorm) hge (hP ▸ hsub)
+    obtain ⟨k1, k2, k3⟩ := hk (B * B) (Eq.refl _)
+    by_cases hne : n1 ≠ cy
+    · rw [if_pos hne]
+      by_cases hlt : n1 < cy
+      · rw [if_pos hlt]
+        simp only [List.getD_cons_zero, List.getD_cons_succ]
+        obtain ⟨m1, m2, m3⟩ := k2 hlt
+        obtain ⟨s1, s2, s3⟩ := add_ssaaaa_val r1 r0 d1 d0 hr1 hr0 hd1 hd0 m1
+        refine ⟨B - 2, _, _, true, rfl, by omega, s2, s3, fun _ => ⟨?_, Or.inl ?_⟩, fun h => by cases h⟩
+        · rw [hbm2]; omega
+        · omega
+      · rw [if_neg hlt]
+        simp only [List.getD_cons_zero, List.getD_cons_succ]
+        refine ⟨B - 1, _, _, false, rfl, by omega, hr0, hr1, (fun h => by cases h), fun _ => ⟨rfl, ?_⟩⟩
+        rw [hbm1]; exact k3 (by omega)
+    · rw [if_neg hne]
+      simp only [List.getD_cons_zero, List.getD_cons_succ]
+      refine ⟨B - 1, _, _, true, rfl, by omega, hr0, hr1, fun _ => ⟨?_, Or.inr rfl⟩, fun h => by cases h⟩
+      rw [hbm1]; exact k1 (by omega)
+  · rw [if_neg hge]
+    simp only [List.getD_cons_zero, List.getD_cons_succ]
+    have hN : n1 * B + a1 < d1 * B + d0 := by
+      have : (n1 + 1) * B ≤ d1 * B := Nat.mul_le_mul_right _ (by omega)
+      nlinarith
+    rw [udiv_qr_3by2_eq n1 a1 a0 d1 d0 dinv hn1 ha1 ha0 hd1 hd0 hnorm hN
+      (by rw [hdinv]; exact invert_pi1_eq d1 d0 hnorm hd1 hd0)]
+    simp only []
+    have hddpos : 0 < d1 * B + d0 := by omega
+    have hdm := Nat.div_add_mod (n1 * B * B + a1 * B + a0) (d1 * B + d0)
+    have hrem := Nat.mod_lt (n1 * B * B + a1 * B + a0) hddpos
+    have hqB : (n1 * B * B + a1 * B + a0) / (d1 * B + d0) < B := by
+      rw [Nat.div_lt_iff_lt_mul hddpos]
+      nlinarith
+    have hddlt : d1 * B + d0 < B * B := by nlinarith
+    generalize (n1 * B * B + a1 * B + a0) / (d1 * B + d0) = q at *
+    generalize (n1 * B * B + a1 * B + a0) % (d1 * B + d0) = rem at *
+    have h1 : rem / B < B := by rw [Nat.div_lt_iff_lt_mul hB]; omega
+    have h0 : rem % B < B := Nat.mod_lt _ hB
+    have hr := Nat.div_add_mod rem B
+    generalize rem / B = rh at *
+    generalize rem % B = rl at *
+    have e1 : a0 + B * a1 + B * B * n1 = q * (d0 + B * d1) + (rl + B * rh) := by
+      have : n1 * B * B + a1 * B + a0 = a0 + B * a1 + B * B * n1 := by ring
+      rw [← this, ← hdm, ← hr]; ring
+    have e2 : rl + B * rh < d0 + B * d1 := by
+      have : rl + B * rh = rem := by rw [← hr]; ring
+      rw [this]; linarith
+    exact ⟨q, rl, rh, true, rfl, hqB, h0, h1, fun _ => ⟨e1, Or.inl e2⟩, fun h => by cases h⟩
+
+theorem dqLast_false (d1 d0 dinv : Nat) (a : List Nat) (n1 : Nat) :
+    (dqLast d1 d0 dinv a n1 false).1 = B - 1 ∧ (dqLast d1 d0 dinv a n1 false).2.2.2 = false := by
+  unfold dqLast
+  simp only [andFlag, Bool.false_eq_true, if_false, ge_iff_le, Nat.zero_le, if_true, Nat.not_lt_zero]
+  split <;> simp
+
 end Mpir.SbDivQ
